@@ -115,9 +115,9 @@ impl Drop for FrameGuard {
     }
 }
 
-pub(crate) struct DeclGuard;
+pub struct DeclGuard;
 impl DeclGuard {
-    pub(crate) fn push(d: Arc<Decl>) -> DeclGuard {
+    pub fn push(d: Arc<Decl>) -> DeclGuard {
         DECLS.with(|f| f.borrow_mut().push(d));
         DeclGuard
     }
